@@ -49,10 +49,14 @@ type cliResult struct {
 
 // cliEnv is a scratch HOME / cache / tmp directory for one history.
 type cliEnv struct {
-	dir   string
-	sin   int  // how standard input is handed over: 0 a pipe, 1 a regular file, 2 a regular file whose first line the caller has already consumed
-	stale bool // -o names a file that already exists and is longer than the output
+	dir     string
+	sin     int  // how standard input is handed over: 0 a pipe, 1 a regular file, 2 a regular file whose first line the caller has already consumed
+	stale   bool // -o names a file that already exists and is longer than the output
+	inPlace bool // with sin == 1 and an output file: -o names the very file standard input is redirected from
 }
+
+// withInPlace returns the environment in which -o names the file standard input comes from.
+func (e cliEnv) withInPlace(on bool) cliEnv { e.inPlace = on; return e }
 
 // withStale returns the environment in which every -o file exists before gts runs.
 func (e cliEnv) withStale(on bool) cliEnv { e.stale = on; return e }
@@ -83,15 +87,23 @@ var cliMu sync.Mutex
 func (e cliEnv) run(args []string, stdin []byte, outfile bool, exts ...string) cliResult {
 	full := append([]string{}, args...)
 	outPath := ""
+	stdinPath := ""
+	if e.sin > 0 {
+		os.MkdirAll(filepath.Join(e.dir, "in"), 0o755)
+		stdinPath = filepath.Join(e.dir, "in", fmt.Sprintf("stdin%d.gb", time.Now().UnixNano()))
+	}
 	if outfile {
 		ext := ".out"
 		if len(exts) > 0 && exts[0] != "" {
 			ext = exts[0] // an extension gts derives the output format from (.fasta, .gb, .genbank)
 		}
 		outPath = filepath.Join(e.dir, "out", fmt.Sprintf("o%d%s", time.Now().UnixNano(), ext))
+		if e.inPlace && e.sin == 1 {
+			outPath = stdinPath
+		}
 		// the output file already exists and is longer than anything gts will write: what is left of it afterwards is
 		// not part of the output
-		if e.stale {
+		if e.stale && outPath != stdinPath {
 			os.WriteFile(outPath, bytes.Repeat([]byte("stale content of an earlier output file\n"), 6000), 0o644)
 		}
 		full = append([]string{full[0], "-o", outPath}, full[1:]...)
@@ -110,8 +122,7 @@ func (e cliEnv) run(args []string, stdin []byte, outfile bool, exts ...string) c
 		if e.sin == 2 {
 			prefix = "a line the caller has read from the same descriptor before it started gts\n"
 		}
-		os.MkdirAll(filepath.Join(e.dir, "in"), 0o755)
-		path := filepath.Join(e.dir, "in", fmt.Sprintf("stdin%d", time.Now().UnixNano()))
+		path := stdinPath
 		if err := os.WriteFile(path, append([]byte(prefix), stdin...), 0o644); err != nil {
 			panic(err)
 		}
